@@ -128,6 +128,7 @@ def verify_unit(repo, reg, qualname, timeout_ms=10000, instance=None):
         p.frames.append(fr)
         pre = SpecEnv(ex, p, dict(env), old=None, contract=c)
         pre.run_lets()
+        ex.unit_env = pre.env
         for rid, rtxt in c.requires:
             p.assume(pre.bool(rtxt))
         for inv in class_invariants(reg, repo, fi, c):
